@@ -18,6 +18,24 @@ def run(ctx):
     g = vlib.run_tlc(ctx.sc, "Gen_Sync", "Gen_Sync.cfg" if t == "quick" else "Gen_Sync2.cfg", collect_json=True, workers=1,
                      simulate=n, depth=40, seed=ctx.seed, timeout=3000)
     scheds = diverse(g.lines, n, steps_of=lambda b: b["ops"], seed=ctx.seed)
+    # nodes (with children) created on either side during an outage of every kind
+    n2 = 8 if t == "quick" else 120
+    g2 = vlib.run_tlc(ctx.sc, "Gen_Sync", "Gen_Sync_create.cfg", collect_json=True, workers=1, timeout=3000)   # all of them (BFS)
+    # one schedule per (kind of outage, side on which a node and its child come into being) first
+    def shape(b):
+        how = next((o["how"] for o in b["ops"] if o["op"] == "down"), "")
+        sides = lambda ident: "".join(sorted({o["side"] for o in b["ops"] if o["op"] == "write" and o["id"] == ident}))
+        return (how, sides("eC:tomb"), sides("eD:tomb"))
+    picked, seen = [], set()
+    for b in g2.lines:
+        k = shape(b)
+        if k[2] and k not in seen:
+            seen.add(k)
+            picked.append(b)
+    # a node and its child that come into being on one side only, first
+    picked.sort(key=lambda b: (not (shape(b)[1] == shape(b)[2] and len(shape(b)[1]) == 1), shape(b)))
+    rest = [b for b in diverse(g2.lines, n2, steps_of=lambda b: b["ops"], seed=ctx.seed) if b not in picked]
+    scheds += (picked + rest)[:n2]
     p = ctx.sc.path("c02.jsonl")
     with open(p, "w") as f:
         for s in scheds:
